@@ -109,13 +109,15 @@ func (Engine) Describe(prop string) kernel.Describe {
 			"concurrent proposals on one channel from both sides legitimately time out; such runs fall under the relaxed oracle"}
 	case "C03":
 		d.Rule = "two real clients with real local watchers; scenario: 1-3 assets, balances, optional different funding agreement, challenge duration, app; up to 12 actions (payments either way with keyed accept/reject, sub-channel open / pay / finalise-and-close under a no-app parent), then cooperative (final) or dispute settlement with drawn first settler, gap and secondary flag. Oracle after both settled: account = before - agreed funding + balance in the newest transaction enabled by both (balances in sub-channels still locked included), holdings zero, funding debits equal the agreement, ledger conservation after every mutation, every Enabled event fully signed. Non-trivial: last common version >= 2; distinct = scenario digest x interleaving hash. Later additions: settlement while a sub-channel update waits for a slow decision with impatient first Settle attempts, the parent moving on between a sub-channel's final update and its settlement, callers cancelling on enable."
-		d.FaultKinds = []string{"delay/reorder", "slow handlers", "slow ledger calls", "late ledger events", "yield hooks (buggify subset)"}
+		d.FaultKinds = []string{"delay/reorder", "slow handlers", "slow ledger calls", "late ledger events", "yield hooks (buggify subset)", "impatient Settle contexts",
+			"ledger Register gives up when its caller's context is done", "the two users settle a final sub-channel out of step"}
 		d.Assumptions = []string{"the reference ledger's contract (DESIGN 3.2): signatures and tree shape verified, refutation does not extend the challenge period, withdraw must supply the registered states",
 			"sub-channels are opened only under no-app parents (the payment app forbids the funding update)",
 			"a Settle call that fails because not all registered events of the channel tree have arrived yet is repeated by the driver (counted as probe.settle_retry)"}
 	case "C04":
 		d.Rule = "as C03, but one side is semi-honest: its real client runs the protocol while an adversary registers earlier fully signed states from that client's Enabled history (version latest-1..latest-4, sub-states any signed state it holds) at drawn instants, synchronously or concurrently with the following updates; the honest side watches and settles when notified. Oracle: the concluded tree consists of states the honest client enabled, each at least as new as its newest at the moment its machine entered Registered; payout >= its balances there; Settle succeeds within the challenge period + 400 simulated seconds. Non-trivial: the honest side registered a refutation; distinct = scenario digest x interleaving hash. Later additions: slow decisions on sub-channel or ledger-channel updates while the dispute starts, a user who settles only after the challenge period, a transient failure of the honest side's Register paired with two re-deliveries of the latest event."
-		d.FaultKinds = []string{"outdated_registration (adversary)", "delay/reorder", "slow handlers", "slow ledger calls", "late ledger events", "yield hooks"}
+		d.FaultKinds = []string{"outdated_registration (adversary)", "delay/reorder", "slow handlers", "slow ledger calls", "late ledger events", "yield hooks", "transient Register failure + re-delivered events",
+			"late start of watching", "ledger Register gives up when its caller's context is done", "out-of-step sub-channel settlement"}
 		d.Assumptions = []string{"ledger and event latencies are bounded so that five refutation rounds fit into the shortest challenge period (1 s): the protocol's own assumption",
 			"the adversary deviates only by registering old signed states; its client does not run a watcher",
 			"known findings are matched by history shape (see known_findings.json)"}
@@ -126,12 +128,12 @@ func (Engine) Describe(prop string) kernel.Describe {
 			"a stealing ordinary update on a no-app channel is acceptable by the statement (valid successor, sender is actor, locked unchanged): whether to accept it is the user handler's decision"}
 	case "C12":
 		d.Rule = "three real clients: victim H (hub) with ledger channels to the adversary's address A and to an honest client B, optionally an honest virtual channel A<->B; 1-6 hostile envelopes per run drawn from 70 kinds (ledger/sub/virtual proposals, proposal responses, updates, update responses, virtual funding/settlement proposals, sync messages) sent as A or as a stranger Z, re-serialised with the run's serializer, at drawn gaps, optionally while H holds its machine lock with a pending own request (3 s or 12 s) and a pending own proposal. Oracle: no process death, no stalled simulation, and after 30 simulated seconds honest probes on both channels return in time. Non-trivial: at least one hostile envelope was delivered; distinct = scenario digest x interleaving hash. Second family (12% of the runs): two honest clients run payments and sub-channel open/pay/close while 2-12% of their sends fail; after a quiet period both sides probe every open channel (no wait for the machine lock, no unanswered request). First family additions: funding updates aimed at the victim's recorded deadline, answer floods after timed-out proposals or failed sends, send faults during honest virtual channel funding/settlement, one transient send error anywhere in the honest traffic, a new channel opening as first probe."
-		d.FaultKinds = append([]string{"delay/reorder", "machine lock held by pending request", "yield hooks"}, c12Kinds...)
+		d.FaultKinds = append([]string{"delay/reorder", "machine lock held by pending request", "yield hooks", "send errors (at once, or stalling until the sender's context ends)", "remote message aimed at the victim's recorded deadline"}, c12Kinds...)
 		d.Assumptions = []string{"decodable = survives Encode+Decode of the run's serializer; other envelopes are counted (probe.undecodable) and not sent",
 			"the adversary's real client does not answer sync messages", "runs are capped at 20000 seam events (probe.event_cap_hit)"}
 	case "C08":
 		d.Rule = "honest openings (ledger channels with drawn challenge duration up to 2^40 s, 1-3 assets, zero balances, funding agreement, app, aux; sub-channels) with scenario-controlled nonce shares, interleaved with crafted proposals that break exactly one validity condition, sent by a stranger or by the channel counterparty and passed through the real serializer. Oracles: identical parameters/ID/participant order/fully signed version-0 state equal to the proposal on both sides; different nonce shares => different IDs; handler never runs for a mutant, no channel is created from one, no panic, a later honest proposal succeeds. Non-trivial: at least one opening and (a mutant or a second opening). 20% of the runs are three-party runs: honest virtual channel openings A<->B through the hub (1-3 per run, drawn balances including zero) with the same identity checks on the two endpoints. Later additions: proposals built from one re-used options value, an opening during which one message cannot be sent (only the final honest opening is judged), two openings by one proposer at once."
-		d.FaultKinds = append([]string{"delay/reorder", "yield hooks"}, c08Mutations...)
+		d.FaultKinds = append([]string{"delay/reorder", "yield hooks", "send error during an opening", "the same proposal again after a failed opening", "decision on an update in flight takes more than 10 s"}, c08Mutations...)
 		d.Assumptions = []string{"mutants that the serializer cannot encode or decode are outside the quantifier and only counted (probe.mutant_undecodable)"}
 	}
 	return d
